@@ -1,5 +1,6 @@
 import Ampy.Props.C19
 import Ampy.GenEq.Small
+import Ampy.GenEq.Scalers
 /-!
 # C19 — the minimum-range rule of the min-max scaling, about the definition regenerated from /repo's source
 
@@ -23,5 +24,47 @@ theorem C19_src_min_range (vals : List (Option Rat)) (minRange : Rat) (hne : val
   exact C19_min_range vals minRange hne hr
 
 example : Gen.minrange2minmax nanmax nanmin [some 100, none, some 300] 1000 = (-300, 700) := by decide +kernel
+
+/-! ### `shift_and_scale`, `minmax_scale` (numpy broadcasting read element-wise; non-zero divisor) -/
+
+theorem C19_src_shift_is_model (vals : List (Option Rat)) (shift : Option Rat) (scale : Rat) (hs : scale ≠ 0) :
+    Gen.shift_and_scale nanmax vals shift scale "do" = .ok (shiftAndScale vals shift scale .doIt) ∧
+    Gen.shift_and_scale nanmax vals shift scale "undo" = .ok (shiftAndScale vals shift scale .undo) :=
+  ⟨GenEq.shift_and_scale_do vals shift scale hs, GenEq.shift_and_scale_undo vals shift scale⟩
+
+theorem C19_src_minmax_is_model (vals : List (Option Rat)) (lo hi : Option Rat)
+    (hne : hi.getD (nanmax vals) - lo.getD (nanmin vals) ≠ 0) :
+    Gen.minmax_scale nanmax nanmin vals lo hi "do" = .ok (minmaxScale vals lo hi .doIt) ∧
+    Gen.minmax_scale nanmax nanmin vals lo hi "undo" = .ok (minmaxScale vals lo hi .undo) :=
+  ⟨GenEq.minmax_scale_do vals lo hi hne, GenEq.minmax_scale_undo vals lo hi⟩
+
+/-- An unknown mode is refused with an `AmpycloudError` by both. -/
+theorem C19_src_badmode (vals : List (Option Rat)) (a b : Option Rat) (k : Rat) (mode : String)
+    (h1 : mode ≠ "do") (h2 : mode ≠ "undo") :
+    Gen.shift_and_scale nanmax vals a k mode = .error (.ampy "") ∧
+    Gen.minmax_scale nanmax nanmin vals a b mode = .error (.ampy "") :=
+  ⟨GenEq.shift_and_scale_badmode vals a k mode h1 h2, GenEq.minmax_scale_badmode vals a b mode h1 h2⟩
+
+/-- On the source: undoing the shift-and-scale with the shift it used gives the input back, NaNs in place, for every
+non-zero scale (the shift defaults to the largest non-NaN value). -/
+theorem C19_src_shift_roundtrip (vals : List (Option Rat)) (shift : Option Rat) (scale : Rat) (hs : scale ≠ 0) :
+    ∃ out, Gen.shift_and_scale nanmax vals shift scale "do" = .ok out ∧
+      Gen.shift_and_scale nanmax out (some (shift.getD (nanmax vals))) scale "undo" = .ok vals := by
+  refine ⟨_, GenEq.shift_and_scale_do vals shift scale hs, ?_⟩
+  rw [GenEq.shift_and_scale_undo]
+  congr 1
+  simp only [shiftAndScale, Option.getD_some, List.map_map]
+  conv => rhs; rw [← List.map_id vals]
+  apply List.map_congr_left
+  intro v _
+  cases v with
+  | none => rfl
+  | some x =>
+    simp only [Function.comp, Option.map_some, shiftScale1, id]
+    congr 1
+    rw [Rat.div_mul_cancel hs]; exact Rat.sub_add_cancel
+
+example : Gen.shift_and_scale nanmax [some 100, none, some 300] none 100 "do" = .ok [some (-2), none, some 0] := by
+  decide +kernel
 
 end Ampy
